@@ -419,6 +419,10 @@ fn main() {
     panic::set_hook(Box::new(|_| {}));
     match mode.as_str() {
         "bnd_tables" => bounded::bnd_tables(),
+        "bnd_c07" => bounded::bnd_c07(),
+        "bnd_c14" => bounded::bnd_c14(),
+        "bnd_c20" => bounded::bnd_c20(),
+        "bnd_doc" => bounded::bnd_doc(),
         "bnd_c08" => bounded::bnd_c08(),
         "bnd_c13" => bounded::bnd_c13(),
         "bnd_c18" => bounded::bnd_c18(),
@@ -426,6 +430,7 @@ fn main() {
         "c19" => c19(),
         "c19_inherit" => c19_inherit(),
         "dbg" => dbg(),
+        "dbgcss" => dbgcss(),
         "c16_trivial" => c16_trivial(),
         "c14_hardwrap" => c14_hardwrap(),
         "c01_specificity" => c01_specificity(),
@@ -439,6 +444,15 @@ fn main() {
         "c03_tables" => c03_tables(),
         _ => { eprintln!("unknown mode"); std::process::exit(2) }
     }
+}
+#[allow(dead_code)]
+pub fn dbgcss() {
+    // replay dbgcss <css> <html>
+    let a: Vec<String> = std::env::args().collect();
+    let cfg = config::rich().add_css(&a[2]).unwrap();
+    println!("{:?}", html2text::parse(a[3].as_bytes()).is_ok());
+    let lines = cfg.lines_from_read(a[3].as_bytes(), 80).unwrap();
+    for l in lines { for ts in l.tagged_strings() { println!("{:?} {:?}", ts.s, ts.tag); } }
 }
 #[allow(dead_code)]
 pub fn dbg() {
